@@ -70,7 +70,10 @@ func parseLineRules(isPreamble bool, input string) (string, Rules, error) {
 	var r Rule
 	var err error
 
-	for _, line := range strings.Split(input, "\n") {
+	// A line that is a rule is blanked where it stands: its text may also
+	// be part of another line
+	lines := strings.Split(input, "\n")
+	for idx, line := range lines {
 		tmp := strings.TrimLeft(line, "\t ")
 		switch {
 		case strings.HasPrefix(tmp, COMMENT.Tok()):
@@ -79,7 +82,7 @@ func parseLineRules(isPreamble bool, input string) (string, Rules, error) {
 				return "", nil, err
 			}
 			res = append(res, r)
-			input = strings.Replace(input, line, "", 1)
+			lines[idx] = ""
 
 		case strings.HasPrefix(tmp, INCLUDE.Tok()):
 			r, err = newInclude(parseRule(line)[1:])
@@ -87,7 +90,7 @@ func parseLineRules(isPreamble bool, input string) (string, Rules, error) {
 				return "", nil, err
 			}
 			res = append(res, r)
-			input = strings.Replace(input, line, "", 1)
+			lines[idx] = ""
 
 		case strings.HasPrefix(tmp, VARIABLE.Tok()) && isPreamble:
 			r, err = newVariable(parseRule(line))
@@ -95,10 +98,10 @@ func parseLineRules(isPreamble bool, input string) (string, Rules, error) {
 				return "", nil, err
 			}
 			res = append(res, r)
-			input = strings.Replace(input, line, "", 1)
+			lines[idx] = ""
 		}
 	}
-	return input, res, nil
+	return strings.Join(lines, "\n"), res, nil
 }
 
 // Parse the comma rules from a raw string. It splits rules string into tokens
